@@ -47,6 +47,12 @@ def run(ctx, pool):
     tw.traces.extend(tw5.traces)
     for k, v in st5["outcomes"].items():
         stats["outcomes"]["pole_" + k] = v
+    # hardly selective membranes under coarse steps (fractions stay inside [0,1] while the feed is over-consumed), half of them with a
+    # solver precision of 1e-2 .. 1 and a feed that is used up in the second or third of three to five steps
+    tw6, st6 = pc.record_processes(ctx, ctx.n(500, 10000), ctx.n(8, 200), {"with_std": False, "unselective_p": 1.0}, coarse=True)
+    tw.traces.extend(tw6.traces)
+    for k, v in st6["outcomes"].items():
+        stats["outcomes"]["unselective_" + k] = v
     tw2, st2 = pc.record_processes(ctx, ctx.n(200, 5000), 0, {"with_std": False}, coarse=False)
     tw.traces.extend(tw2.traces)
     stats["nontrivial"] |= st2["nontrivial"]
